@@ -355,6 +355,9 @@ def _never_none(v) -> bool:
     return False
 
 
+INT_CELL_ARRAYS = {"_bloom", "_bins", "_filter", "_bitarray"}
+
+
 def _norm_node(n):
     k = n[0]
     if k == "sub" and len(n) >= 3 and n[2][0] == "c" and isinstance(n[2][1], int) and not isinstance(n[2][1], bool):
@@ -504,6 +507,8 @@ def _norm_node(n):
             if a[0] == "unp" and isinstance(a[1], str) and isinstance(a[2], int):
                 chars = [c for c in a[1] if c.isalpha()]
                 slot = chars[a[2]] if a[2] < len(chars) else None
+            if fn[1] == "int" and a[0] == "sub" and a[1][0] == "f" and a[1][2] in INT_CELL_ARRAYS and a[2][0] != "slc":
+                return a  # an element of one of the repo's integer cell arrays (array('B' / 'I' / 'i'), or a byte of the mapped file) is an int
             if fn[1] == "int" and ((a[0] == "call" and a[1] in (("g", "int"), ("g", "len"), ("ext", "math", "ceil"), ("ext", "math", "floor"), ("ext", "math", "trunc")))
                                    or (a[0] == "call" and a[1] == ("g", "round") and len(a[2]) == 1) or (slot is not None and slot in "bBhHiIlLqQnN")):
                 return a
